@@ -665,6 +665,12 @@ func runPSI(line []byte, rec *recorder) {
 			sec := &astits.PSISection{Header: &astits.PSISectionHeader{TableID: astits.PSITableID(m.TID), SectionSyntaxIndicator: m.SSI, PrivateBit: m.Priv, SectionLength: uint16(1 + r.intn(100))},
 				Syntax: &astits.PSISectionSyntax{Header: &astits.PSISectionSyntaxHeader{TableIDExtension: uint16(m.Ext), VersionNumber: uint8(m.Ver), CurrentNextIndicator: m.CNI,
 					SectionNumber: uint8(m.SN), LastSectionNumber: uint8(m.LSN)}, Data: &astits.PSISectionSyntaxData{PAT: m.PAT, PMT: m.PMT}}}
+			if i%3 == 2 {
+				// a section as the parser leaves it (section_length and CRC_32 filled in) whose content was edited afterwards without changing
+				// its size: the checksum is computed over what is written, the stored one is stale
+				sec.Header.SectionLength = uint16(len(twinSection(m)) - 3)
+				sec.CRC32 = uint32(r.u64()) | 1
+			}
 			secs := []*astits.PSISection{sec}
 			vals := []M{encTableModel(m)}
 			for extra := r.pick(0, 0, 1, 2); extra > 0; extra-- { // several sections in one writePSIData call
